@@ -19,7 +19,8 @@ RULE = ("histories over {place(content form, value), rest(value), bar + content,
         "bound over a 10-value sub-vocabulary, (b) every fill-to-capacity with one repeated value, (c) seeded Hypothesis "
         "histories of up to 60 steps, (d) meter acceptance over beat units/counts. The bar is compared with an exact Fraction "
         "model after every step. Non-trivial: a history that reaches exact capacity, contains a refusal, or places after a "
-        "remove-last; a fill with > 1 part; a meter with a non-integer or non-power-of-two unit.")
+        "remove-last; a fill with > 1 part; a meter with a non-integer or non-power-of-two unit."
+        " Also: constructed overflows by 1-5 vocabulary quanta; 'beat closer' histories (tuplet-heavy prefix, values placed until exactly one or two beats are left, then '+'); 'churn' histories (place-and-remove cycles on tuplet beats, then an exact refill); emptying the same Bar and giving it a new meter.")
 ASSUMPTIONS = ["note values handed to mingus are ints when integral, else the correctly rounded float of the vocabulary rational",
                "a refused meter is any raised exception with the bar unchanged (statement does not name the error)",
                "float clauses compared with |.| <= 1e-9; vocabulary quantum is 1/215040 ~ 4.7e-6"]
